@@ -23,6 +23,13 @@ Definition bty_str (q : style) (b : bty) : string :=
   | BStr => "String"
   end.
 
+Fixpoint sep_by (sep : string) (l : list string) : string :=
+  match l with
+  | [] => ""
+  | [x] => x
+  | x :: r => x ++ sep ++ sep_by sep r
+  end.
+
 Definition ty_str (q : style) (t : ty) : string :=
   match t with
   | TMI => bty_str q BMI
@@ -30,8 +37,25 @@ Definition ty_str (q : style) (t : ty) : string :=
   | TBool => "Boolean"
   | TStr => "String"
   | TList b => "List(" ++ bty_str q b ++ ")"
+  | TArr b => "Array(" ++ bty_str q b ++ ")"
   | TBox d n => (match d with DA => "BoxA(" | DB => "BoxB(" end)
                 ++ bty_str q (match n with NMI => BMI | NInt => BInt end) ++ ")"
+  | TUni fs =>
+      "Union(" ++ (fix go (k : nat) (l : list bty) : string :=
+                      match l with
+                      | [] => ""
+                      | [b] => "f" ++ dec_of_Z (Z.of_nat k) ++ ": " ++ bty_str q b
+                      | b :: r => "f" ++ dec_of_Z (Z.of_nat k) ++ ": " ++ bty_str q b ++ ", " ++ go (S k) r
+                      end) 0%nat fs ++ ")"
+  | TFun ps r => "(" ++ sep_by ", " (map (bty_str q) ps) ++ ") -> " ++ bty_str q r
+  | TBad => "?bad"
+  | TRec fs =>
+      "Record(" ++ (fix go (k : nat) (l : list bty) : string :=
+                      match l with
+                      | [] => ""
+                      | [b] => "f" ++ dec_of_Z (Z.of_nat k) ++ ": " ++ bty_str q b
+                      | b :: r => "f" ++ dec_of_Z (Z.of_nat k) ++ ": " ++ bty_str q b ++ ", " ++ go (S k) r
+                      end) 0%nat fs ++ ")"
   end.
 
 (* string literals: underscore-quote stands for a quote, underscore-underscore for an
@@ -63,12 +87,7 @@ Definition lit_str (q : style) (l : lit) : string :=
 Fixpoint ind (n : nat) : string :=
   match n with O => "" | S k => "    " ++ ind k end.
 
-Fixpoint sep_by (sep : string) (l : list string) : string :=
-  match l with
-  | [] => ""
-  | [x] => x
-  | x :: r => x ++ sep ++ sep_by sep r
-  end.
+
 
 Definition bin (a op b : string) : string := "(" ++ a ++ " " ++ op ++ " " ++ b ++ ")".
 
@@ -95,7 +114,9 @@ Definition prim_str (q : style) (p : prim) (a : list string) : string :=
   | PNot, [x] => "(~ " ++ x ++ ")"
   | PBAnd, [x; y] => bin x "/\" y
   | PBOr, [x; y] => bin x "\/" y
-  | (PLen | PLLen _), [x] => "(# " ++ x ++ ")"
+  | (PLen | PLLen _ | PALen _), [x] => "(# " ++ x ++ ")"
+  | PANew b, [x; y] => "(new(" ++ x ++ ", " ++ y ++ ")@Array(" ++ bty_str q b ++ "))"
+  | PAGet _, [x; y] => "(" ++ x ++ ".(" ++ y ++ "))"
   | PLCons _, [x; y] => "cons(" ++ x ++ ", " ++ y ++ ")"
   | PLFirst _, [x] => "first(" ++ x ++ ")"
   | PLRest _, [x] => "rest(" ++ x ++ ")"
@@ -137,6 +158,25 @@ Fixpoint pe (q : style) (np d i : nat) (e : expr) {struct e} : string :=
       "({" ++ nl ++ lines (ps1 q false np d (S i)) (S i) ss
            ++ ind (S i) ++ pe q np d (S i) e' ++ nl ++ ind i ++ "})"
   | EMac m e' => (match m with MDbl _ => "DBL(" | MSqr _ => "SQR(" end) ++ pe q np d i e' ++ ")"
+  | EArrLit b es =>
+      match es with
+      | [] => "(empty@Array(" ++ bty_str q b ++ "))"
+      | _ => "([" ++ sep_by ", " (map (pe q np d i) es) ++ "]@Array(" ++ bty_str q b ++ "))"
+      end
+  | ERec fs es => "([" ++ sep_by ", " (map (pe q np d i) es) ++ "]@" ++ ty_str q (TRec fs) ++ ")"
+  | EField k e' | EUGet k e' => "(" ++ pe q np d i e' ++ ".f" ++ nat_str k ++ ")"
+  | EUni fs k e' => "([f" ++ nat_str k ++ " == " ++ pe q np d i e' ++ "]@" ++ ty_str q (TUni fs) ++ ")"
+  | ECase k e' => "(" ++ pe q np d i e' ++ " case f" ++ nat_str k ++ ")"
+  | EClo n ps r caps =>
+      let names := map (fun k => "a" ++ nat_str k) (seq 0 (List.length ps)) in
+      (* the function expression is qualified with its unnamed function type: otherwise an
+         assignment `g := (a0: T): R +-> ..` to a variable declared `g: (T) -> R` is taken as a
+         second variable of the type `(a0: T) -> R` ("Variables cannot have different types in
+         the same scope")                                                                   *)
+      "(((" ++ sep_by ", " (map (fun nb => fst nb ++ ": " ++ bty_str q (snd nb)) (combine names ps)) ++ "): "
+      ++ bty_str q r ++ " +-> " ++ fun_str n ++ "(" ++ sep_by ", " (map (pe q np d i) caps ++ names) ++ "))@("
+      ++ ty_str q (TFun ps r) ++ "))"
+  | EApp fn args => "((" ++ pe q np d i fn ++ ")(" ++ sep_by ", " (map (pe q np d i) args) ++ "))"
   | EListLit b es =>
       match es with
       | [] => "(empty@List(" ++ bty_str q b ++ "))"
@@ -148,6 +188,10 @@ with ps1 (q : style) (tb : bool) (np d i : nat) (s : stmt) {struct s} : string :
   match s with
   | SAssG k e => glob_str k ++ " := " ++ pe q np d i e
   | SAssL k e => loc_str np k ++ " := " ++ pe q np d i e
+  | SSetG k j e => glob_str k ++ ".f" ++ nat_str j ++ " := " ++ pe q np d i e
+  | SSetL k j e => loc_str np k ++ ".f" ++ nat_str j ++ " := " ++ pe q np d i e
+  | SSetIG k j e => glob_str k ++ ".(" ++ pe q np d i j ++ ") := " ++ pe q np d i e
+  | SSetIL k j e => loc_str np k ++ ".(" ++ pe q np d i j ++ ") := " ++ pe q np d i e
   | SPrint es => "stdout << " ++ String.concat "" (map (fun e => pe q np d i e ++ " << ") es) ++ "newline"
   | SIf c a b =>
       "if " ++ pe q np d i c ++ " then {" ++ nl ++ lines (ps1 q false np d (S i)) (S i) a ++ ind i ++ "}"
@@ -198,13 +242,15 @@ Fixpoint assg_e (e : expr) : list nat :=
   | EIf c a b => assg_e c ++ assg_e a ++ assg_e b
   | EAnd a b | EOr a b => assg_e a ++ assg_e b
   | ESeq ss e' => flat_map assg_s ss ++ assg_e e'
-  | EMac _ e' => assg_e e'
-  | EListLit _ es => flat_map assg_e es
+  | EMac _ e' | EField _ e' | EUni _ _ e' | ECase _ e' | EUGet _ e' => assg_e e'
+  | EListLit _ es | ERec _ es | EArrLit _ es | EClo _ _ _ es => flat_map assg_e es
+  | EApp fn es => assg_e fn ++ flat_map assg_e es
   end
 with assg_s (s : stmt) : list nat :=
   match s with
   | SAssG k e => k :: assg_e e
-  | SAssL _ e | SReturn e => assg_e e
+  | SAssL _ e | SReturn e | SSetG _ _ e | SSetL _ _ e => assg_e e
+  | SSetIG _ j e | SSetIL _ j e => assg_e j ++ assg_e e
   | SPrint es | SCall _ es => flat_map assg_e es
   | SIf c a b => assg_e c ++ flat_map assg_s a ++ flat_map assg_s b
   | SWhile c body => assg_e c ++ flat_map assg_s body
@@ -225,12 +271,14 @@ Fixpoint exn_e (e : expr) : bool :=
   | EIf c a b => (exn_e c || exn_e a || exn_e b)%bool
   | EAnd a b | EOr a b => (exn_e a || exn_e b)%bool
   | ESeq ss e' => (existsb exn_s ss || exn_e e')%bool
-  | EMac _ e' => exn_e e'
-  | EListLit _ es => existsb exn_e es
+  | EMac _ e' | EField _ e' | EUni _ _ e' | ECase _ e' | EUGet _ e' => exn_e e'
+  | EListLit _ es | ERec _ es | EArrLit _ es | EClo _ _ _ es => existsb exn_e es
+  | EApp fn es => (exn_e fn || existsb exn_e es)%bool
   end
 with exn_s (s : stmt) : bool :=
   match s with
-  | SAssG _ e | SAssL _ e | SReturn e | SError e => exn_e e
+  | SAssG _ e | SAssL _ e | SReturn e | SError e | SSetG _ _ e | SSetL _ _ e => exn_e e
+  | SSetIG _ j e | SSetIL _ j e => (exn_e j || exn_e e)%bool
   | SPrint es | SCall _ es => existsb exn_e es
   | SIf c a b => (exn_e c || existsb exn_s a || existsb exn_s b)%bool
   | SWhile c body => (exn_e c || existsb exn_s body)%bool
@@ -257,15 +305,17 @@ Fixpoint box_e (e : expr) : bool :=
   match e with
   | ELit _ | EGlob _ | ELoc _ => false
   | EPrim p args => (is_box_prim p || existsb box_e args)%bool
-  | ECall _ args | EListLit _ args => existsb box_e args
+  | ECall _ args | EListLit _ args | ERec _ args | EArrLit _ args | EClo _ _ _ args => existsb box_e args
+  | EApp fn args => (box_e fn || existsb box_e args)%bool
   | EIf c a b => (box_e c || box_e a || box_e b)%bool
   | EAnd a b | EOr a b => (box_e a || box_e b)%bool
   | ESeq ss e' => (existsb box_s ss || box_e e')%bool
-  | EMac _ e' => box_e e'
+  | EMac _ e' | EField _ e' | EUni _ _ e' | ECase _ e' | EUGet _ e' => box_e e'
   end
 with box_s (s : stmt) : bool :=
   match s with
-  | SAssG _ e | SAssL _ e | SReturn e | SError e => box_e e
+  | SAssG _ e | SAssL _ e | SReturn e | SError e | SSetG _ _ e | SSetL _ _ e => box_e e
+  | SSetIG _ j e | SSetIL _ j e => (box_e j || box_e e)%bool
   | SPrint es | SCall _ es => existsb box_e es
   | SIf c a b => (box_e c || existsb box_s a || existsb box_s b)%bool
   | SWhile c body => (box_e c || existsb box_s body)%bool
@@ -285,6 +335,127 @@ Definition box_item (it : item) : bool :=
   | IStmt s => box_s s
   end.
 
+(* the record types a program mentions: each is imported in the header (a declaration
+   `x: T` imports T, langenvs.tex:734-737, but a constructor `[..]@Record(..)` alone does not) *)
+Local Open Scope list_scope.
+Definition rec_of_ty (t : ty) : list (list bty) := match t with TRec fs => [fs] | _ => [] end.
+Fixpoint recs_e (e : expr) : list (list bty) :=
+  match e with
+  | ELit _ | EGlob _ | ELoc _ => []
+  | EPrim _ args | ECall _ args | EListLit _ args | EArrLit _ args | EClo _ _ _ args => flat_map recs_e args
+  | EApp fn args => recs_e fn ++ flat_map recs_e args
+  | ERec fs args => fs :: flat_map recs_e args
+  | EIf c a b => recs_e c ++ recs_e a ++ recs_e b
+  | EAnd a b | EOr a b => recs_e a ++ recs_e b
+  | ESeq ss e' => flat_map recs_s ss ++ recs_e e'
+  | EMac _ e' | EField _ e' | ECase _ e' | EUGet _ e' => recs_e e'
+  | EUni _ _ e' => recs_e e'
+  end
+with recs_s (s : stmt) : list (list bty) :=
+  match s with
+  | SAssG _ e | SAssL _ e | SReturn e | SError e | SSetG _ _ e | SSetL _ _ e => recs_e e
+  | SSetIG _ j e | SSetIL _ j e => recs_e j ++ recs_e e
+  | SPrint es | SCall _ es => flat_map recs_e es
+  | SIf c a b => recs_e c ++ flat_map recs_s a ++ flat_map recs_s b
+  | SWhile c body => recs_e c ++ flat_map recs_s body
+  | SFor lo hi body => recs_e lo ++ recs_e hi ++ flat_map recs_s body
+  | SForIn _ l body => recs_e l ++ flat_map recs_s body
+  | SBreak | SIterate | SNever | SThrow _ => []
+  | SExit c s' => recs_e c ++ recs_s s'
+  | SExitV c e => recs_e c ++ recs_e e
+  | STry body hs => flat_map recs_s body ++ flat_map (fun h => flat_map recs_s (snd h)) hs
+  end.
+Definition recs_item (it : item) : list (list bty) :=
+  match it with
+  | IConst t e | IVar t e => rec_of_ty t ++ recs_e e
+  | IFun fd => flat_map rec_of_ty (fd_ret fd :: fd_params fd)
+               ++ flat_map (fun le => rec_of_ty (fst le) ++ recs_e (snd le)) (fd_locals fd)
+               ++ flat_map recs_s (fd_body fd) ++ recs_e (fd_result fd)
+  | IStmt s => recs_s s
+  end.
+Fixpoint dedup_recs (l : list (list bty)) : list (list bty) :=
+  match l with
+  | [] => []
+  | x :: r => if existsb (btys_eqb x) r then dedup_recs r else x :: dedup_recs r
+  end.
+
+Local Open Scope string_scope.
+
+(* the union types a program mentions (imported in the header like the record types) *)
+Local Open Scope list_scope.
+Definition uni_of_ty (t : ty) : list (list bty) := match t with TUni fs => [fs] | _ => [] end.
+Fixpoint unis_e (e : expr) : list (list bty) :=
+  match e with
+  | ELit _ | EGlob _ | ELoc _ => []
+  | EPrim _ args | ECall _ args | EListLit _ args | EArrLit _ args | ERec _ args | EClo _ _ _ args => flat_map unis_e args
+  | EApp fn args => unis_e fn ++ flat_map unis_e args
+  | EUni fs _ e' => fs :: unis_e e'
+  | EIf c a b => unis_e c ++ unis_e a ++ unis_e b
+  | EAnd a b | EOr a b => unis_e a ++ unis_e b
+  | ESeq ss e' => flat_map unis_s ss ++ unis_e e'
+  | EMac _ e' | EField _ e' | ECase _ e' | EUGet _ e' => unis_e e'
+  end
+with unis_s (s : stmt) : list (list bty) :=
+  match s with
+  | SAssG _ e | SAssL _ e | SReturn e | SError e | SSetG _ _ e | SSetL _ _ e => unis_e e
+  | SSetIG _ j e | SSetIL _ j e => unis_e j ++ unis_e e
+  | SPrint es | SCall _ es => flat_map unis_e es
+  | SIf c a b => unis_e c ++ flat_map unis_s a ++ flat_map unis_s b
+  | SWhile c body => unis_e c ++ flat_map unis_s body
+  | SFor lo hi body => unis_e lo ++ unis_e hi ++ flat_map unis_s body
+  | SForIn _ l body => unis_e l ++ flat_map unis_s body
+  | SBreak | SIterate | SNever | SThrow _ => []
+  | SExit c s' => unis_e c ++ unis_s s'
+  | SExitV c e => unis_e c ++ unis_e e
+  | STry body hs => flat_map unis_s body ++ flat_map (fun h => flat_map unis_s (snd h)) hs
+  end.
+Definition unis_item (it : item) : list (list bty) :=
+  match it with
+  | IConst t e | IVar t e => uni_of_ty t ++ unis_e e
+  | IFun fd => flat_map uni_of_ty (fd_ret fd :: fd_params fd)
+               ++ flat_map (fun le => uni_of_ty (fst le) ++ unis_e (snd le)) (fd_locals fd)
+               ++ flat_map unis_s (fd_body fd) ++ unis_e (fd_result fd)
+  | IStmt s => unis_s s
+  end.
+Local Open Scope string_scope.
+
+(* does the program use arrays (then the header imports the four Array domains) *)
+Definition is_arr_ty (t : ty) : bool := match t with TArr _ => true | _ => false end.
+Fixpoint arr_e (e : expr) : bool :=
+  match e with
+  | ELit _ | EGlob _ | ELoc _ => false
+  | EPrim p args => (match p with PANew _ | PALen _ | PAGet _ => true | _ => false end || existsb arr_e args)%bool
+  | ECall _ args | EListLit _ args | ERec _ args | EClo _ _ _ args => existsb arr_e args
+  | EApp fn args => (arr_e fn || existsb arr_e args)%bool
+  | EArrLit _ _ => true
+  | EIf c a b => (arr_e c || arr_e a || arr_e b)%bool
+  | EAnd a b | EOr a b => (arr_e a || arr_e b)%bool
+  | ESeq ss e' => (existsb arr_s ss || arr_e e')%bool
+  | EMac _ e' | EField _ e' | EUni _ _ e' | ECase _ e' | EUGet _ e' => arr_e e'
+  end
+with arr_s (s : stmt) : bool :=
+  match s with
+  | SAssG _ e | SAssL _ e | SReturn e | SError e | SSetG _ _ e | SSetL _ _ e => arr_e e
+  | SSetIG _ _ _ | SSetIL _ _ _ => true
+  | SPrint es | SCall _ es => existsb arr_e es
+  | SIf c a b => (arr_e c || existsb arr_s a || existsb arr_s b)%bool
+  | SWhile c body => (arr_e c || existsb arr_s body)%bool
+  | SFor lo hi body => (arr_e lo || arr_e hi || existsb arr_s body)%bool
+  | SForIn _ l body => (arr_e l || existsb arr_s body)%bool
+  | SBreak | SIterate | SNever | SThrow _ => false
+  | SExit c s' => (arr_e c || arr_s s')%bool
+  | SExitV c e => (arr_e c || arr_e e)%bool
+  | STry body hs => (existsb arr_s body || existsb (fun h => existsb arr_s (snd h)) hs)%bool
+  end.
+Definition arr_item (it : item) : bool :=
+  match it with
+  | IConst t e | IVar t e => (is_arr_ty t || arr_e e)%bool
+  | IFun fd => (existsb is_arr_ty (fd_ret fd :: fd_params fd)
+                || existsb (fun le => (is_arr_ty (fst le) || arr_e (snd le))%bool) (fd_locals fd)
+                || existsb arr_s (fd_body fd) || arr_e (fd_result fd))%bool
+  | IStmt s => arr_s s
+  end.
+
 (* does the program use lists (then the header imports the four List domains) *)
 Definition is_list_ty (t : ty) : bool := match t with TList _ => true | _ => false end.
 Definition is_list_prim (p : prim) : bool :=
@@ -296,16 +467,18 @@ Fixpoint lst_e (e : expr) : bool :=
   match e with
   | ELit _ | EGlob _ | ELoc _ => false
   | EPrim p args => (is_list_prim p || existsb lst_e args)%bool
-  | ECall _ args => existsb lst_e args
+  | ECall _ args | ERec _ args | EArrLit _ args | EClo _ _ _ args => existsb lst_e args
+  | EApp fn args => (lst_e fn || existsb lst_e args)%bool
   | EIf c a b => (lst_e c || lst_e a || lst_e b)%bool
   | EAnd a b | EOr a b => (lst_e a || lst_e b)%bool
   | ESeq ss e' => (existsb lst_s ss || lst_e e')%bool
-  | EMac _ e' => lst_e e'
+  | EMac _ e' | EField _ e' | EUni _ _ e' | ECase _ e' | EUGet _ e' => lst_e e'
   | EListLit _ _ => true
   end
 with lst_s (s : stmt) : bool :=
   match s with
-  | SAssG _ e | SAssL _ e | SReturn e | SError e => lst_e e
+  | SAssG _ e | SAssL _ e | SReturn e | SError e | SSetG _ _ e | SSetL _ _ e => lst_e e
+  | SSetIG _ j e | SSetIL _ j e => (lst_e j || lst_e e)%bool
   | SPrint es | SCall _ es => existsb lst_e es
   | SIf c a b => (lst_e c || existsb lst_s a || existsb lst_s b)%bool
   | SWhile c body => (lst_e c || existsb lst_s body)%bool
@@ -413,6 +586,13 @@ Definition header_of (q : style) (p : prog) : string :=
   ++ (if existsb lst_item p
       then "import from List(" ++ bty_str q BMI ++ "), List(" ++ bty_str q BInt ++ "), List(Boolean), List(String);" ++ nl
       else "")
+  ++ (if existsb arr_item p
+      then "import from Array(" ++ bty_str q BMI ++ "), Array(" ++ bty_str q BInt ++ "), Array(Boolean), Array(String);" ++ nl
+      else "")
+  ++ String.concat "" (map (fun fs => "import from " ++ ty_str q (TRec fs) ++ ";" ++ nl)
+                           (dedup_recs (flat_map recs_item p)))
+  ++ String.concat "" (map (fun fs => "import from " ++ ty_str q (TUni fs) ++ ";" ++ nl)
+                           (dedup_recs (flat_map unis_item p)))
   ++ (if existsb exn_item p then exn_decls else "")
   ++ (if existsb box_item p then dom_decls q else "").
 
